@@ -30,10 +30,12 @@ type c08Lane struct {
 
 type c08Scen struct {
 	Lanes []c08Lane `json:"lanes"`
+	Redis bool      `json:"redis,omitempty"` // persistence (sessions with their wills) on the redis backend
 }
 
 func genC08(t *rapid.T) c08Scen {
 	var s c08Scen
+	s.Redis = rapid.IntRange(0, 3).Draw(t, "backend") == 0
 	n := rapid.IntRange(6, 10).Draw(t, "nlanes")
 	for i := 0; i < n; i++ {
 		l := c08Lane{V: rapid.SampledFrom([]int{4, 5, 5}).Draw(t, "v"), WillQoS: byte(rapid.IntRange(0, 2).Draw(t, "wq")), Retain: rapid.Bool().Draw(t, "wr"),
@@ -80,6 +82,11 @@ func minIval(a, b ival) ival {
 
 func runC08(s c08Scen, c *ev.Case) *ev.Violation {
 	cfg := fixture.BaseConfig()
+	cfg, cleanupBackend, bv := withBackend(cfg, s.Redis, c)
+	if bv != nil {
+		return bv
+	}
+	defer cleanupBackend()
 	b, err := fixture.Start(fixture.Opts{Config: cfg})
 	if err != nil {
 		return harnessErr("start broker: %v", err)
